@@ -37,6 +37,7 @@ func (x *Exec) script(q *Query, quant bool, z3 bool, model bool) string {
 	} else {
 		b.WriteString("(set-option :produce-models true)\n(set-logic ALL)\n")
 	}
+	viewDecl(x)
 	spec := x.specText(quant) // may register sorts: before the prelude is printed
 	var pre strings.Builder
 	pre.WriteString(x.w.Prelude(quant))
@@ -45,6 +46,7 @@ func (x *Exec) script(q *Query, quant bool, z3 bool, model bool) string {
 	pre.WriteString(fmtPrelude(quant))
 	pre.WriteString(cryptoPrelude())
 	pre.WriteString(timePrelude())
+	pre.WriteString(pePrelude(x, quant))
 	if quant {
 		pre.WriteString(cryptoPreludeQ())
 		pre.WriteString(timePreludeQ())
@@ -172,18 +174,28 @@ func (x *Exec) dischargeSeed(q *Query, tier string, seed int) *Result {
 		s               float64
 	}
 	race, stop := context.WithCancel(context.Background())
-	ch := make(chan ans, 2)
-	go func() {
-		a, out, s := runSolverCtx(race, "z3-new", append([]string{"-in", "-t:" + ms}, sa...), full, to)
-		ch <- ans{a, out, "z3-new", s}
-	}()
-	go func() {
-		a, out, s := runSolverCtx(race, "z3", append([]string{"-in", "-t:" + ms}, sa...), full, to)
-		ch <- ans{a, out, "z3-4.8.12", s}
-	}()
+	// A third contestant: z3 5.1 with a lower eager instantiation threshold.  The sequence
+	// axioms can feed each other (a split s = s[:k] + s[k:] makes every slice of s a slice of an
+	// append); with the default threshold the search sometimes drowns in such instances, with
+	// a low one they are postponed and the short proof is found at once - and the other way round.
+	type contestant struct {
+		bin, name string
+		extra     []string
+	}
+	cs := []contestant{{"z3-new", "z3-new", nil}, {"z3", "z3-4.8.12", nil}, {"z3-new", "z3-new/eager4", []string{"smt.qi.eager_threshold=4"}}}
+	ch := make(chan ans, len(cs))
+	for _, c := range cs {
+		c := c
+		go func() {
+			args := append([]string{"-in", "-t:" + ms}, sa...)
+			args = append(args, c.extra...)
+			a, out, s := runSolverCtx(race, c.bin, args, full, to)
+			ch <- ans{a, out, c.name, s}
+		}()
+	}
 	var first string
 	var wall float64
-	for i := 0; i < 2; i++ {
+	for i := 0; i < len(cs); i++ {
 		r := <-ch
 		if r.s > wall {
 			wall = r.s
